@@ -572,3 +572,96 @@ Proof.
   destruct (fn_find_rigid_matches_rev_loop1 (rev l) u v l [] (length u)) as [[[r b]|[r i]]|]; cbn [frmr_res] in H; try discriminate;
     cbn [bind option_map fst snd]; congruence.
 Qed.
+
+(* ================= flatten_concat / decompose_concat (self-recursive: a Fixpoint on fuel) ================= *)
+Lemma height_concat_l i n p a b : height a < height (Node i n p (NConcat a b)).
+Proof. cbn [height]. lia. Qed.
+Lemma height_concat_r i n p a b : height b < height (Node i n p (NConcat a b)).
+Proof. cbn [height]. lia. Qed.
+
+(* with fuel above the height of the term the traversal never runs out, never panics, appends to the vector it is
+   given and appends exactly the model's list of factors *)
+Lemma link_flatten_concat_fuel : forall fuel r v, height (conv_re r) <= fuel ->
+  exists l, M_fn_flatten_concat fuel r v = Some (v ++ l, tt) /\ map conv_re l = flatten_concat (conv_re r).
+Proof.
+  unfold M_fn_flatten_concat.
+  induction fuel as [|fuel IH]; intros r v Hh.
+  - destruct r as [k i n s sp dc]. cbn [conv_re height] in Hh. destruct (conv_base k); lia.
+  - destruct r as [k i n s sp dc]. cbn [fn_flatten_concat RE_expr].
+    destruct k as [| |c|a b|a lr|a|l|l];
+      try (eexists; split; [reflexivity|reflexivity]).
+    + exists []. rewrite app_nil_r. split; reflexivity.
+    + cbn [conv_re conv_base] in Hh. fold conv_re in Hh.
+      pose proof (height_concat_l (N.of_nat i) n (convp dc) (conv_re a) (conv_re b)) as Ha.
+      pose proof (height_concat_r (N.of_nat i) n (convp dc) (conv_re a) (conv_re b)) as Hb.
+      destruct (IH a v ltac:(lia)) as (l1 & E1 & M1). rewrite E1. cbn [bind].
+      destruct (IH b (v ++ l1) ltac:(lia)) as (l2 & E2 & M2). rewrite E2. cbn [bind].
+      exists (l1 ++ l2). split; [rewrite app_assoc; reflexivity|].
+      rewrite map_app, M1, M2. reflexivity.
+Qed.
+
+Lemma link_decompose_concat fuel r : height (conv_re r) <= fuel ->
+  option_map (map conv_re) (M_fn_decompose_concat fuel r) = Some (flatten_concat (conv_re r)).
+Proof.
+  intros Hh. unfold M_fn_decompose_concat, fn_decompose_concat.
+  destruct (link_flatten_concat_fuel fuel r [] Hh) as (l & E & M). rewrite E. cbn [bind app option_map]. rewrite M. reflexivity.
+Qed.
+
+(* ---- flatten_inter / flatten_union: the recursive call sits inside a for loop; the loop takes the function at the
+   smaller fuel as a parameter ---- *)
+Lemma height_inter_in i n p l x : In x l -> height x < height (Node i n p (NInter l)).
+Proof.
+  intros Hx. simpl. apply Nat.lt_succ_r. induction l as [|y l IH]; [destruct Hx|].
+  destruct Hx as [->|Hx]; [lia|]. specialize (IH Hx). lia.
+Qed.
+Lemma height_union_in i n p l x : In x l -> height x < height (Node i n p (NUnion l)).
+Proof.
+  intros Hx. simpl. apply Nat.lt_succ_r. induction l as [|y l IH]; [destruct Hx|].
+  destruct Hx as [->|Hx]; [lia|]. specialize (IH Hx). lia.
+Qed.
+
+Lemma flatten_loop_ok (rec_ : RE -> list RE -> option (list RE * unit)) (F : re -> list re)
+    (loop : (RE -> list RE -> option (list RE * unit)) -> nat -> list RE -> list RE -> option (loopres (list RE * unit) (list RE)))
+    (loop_nil : forall fuel v, loop rec_ fuel [] v = Some (LoopDone v))
+    (loop_cons : forall fuel x l v, loop rec_ fuel (x :: l) v = (do t <- rec_ x v; let '(o, _) := t in loop rec_ fuel l o))
+    fuel : forall l v,
+  (forall x v', In x l -> exists l', rec_ x v' = Some (v' ++ l', tt) /\ map conv_re l' = F (conv_re x)) ->
+  exists l', loop rec_ fuel l v = Some (LoopDone (v ++ l')) /\ map conv_re l' = flat_map F (map conv_re l).
+Proof.
+  induction l as [|x l IH]; intros v Hrec.
+  - exists []. rewrite loop_nil, app_nil_r. split; reflexivity.
+  - rewrite loop_cons. destruct (Hrec x v (or_introl eq_refl)) as (l1 & E1 & M1). rewrite E1. cbn [bind].
+    destruct (IH (v ++ l1) (fun y v' Hy => Hrec y v' (or_intror Hy))) as (l2 & E2 & M2). rewrite E2.
+    exists (l1 ++ l2). split; [rewrite app_assoc; reflexivity|]. cbn [map flat_map]. rewrite map_app, M1, M2. reflexivity.
+Qed.
+
+Lemma link_flatten_inter_fuel : forall fuel r v, height (conv_re r) <= fuel ->
+  exists l, M_fn_flatten_inter fuel r v = Some (v ++ l, tt) /\ map conv_re l = flatten_inter (conv_re r).
+Proof.
+  unfold M_fn_flatten_inter.
+  induction fuel as [|fuel IH]; intros r v Hh.
+  - destruct r as [k i n s sp dc]. cbn [conv_re height] in Hh. destruct (conv_base k); lia.
+  - destruct r as [k i n s sp dc]. cbn [fn_flatten_inter RE_expr].
+    destruct k as [| |c|a b|a lr|a|l|l]; try (eexists; split; [reflexivity|reflexivity]).
+    cbn [conv_re conv_base] in Hh. fold conv_re in Hh.
+    destruct (flatten_loop_ok (fn_flatten_inter fuel) flatten_inter fn_flatten_inter_loop1
+                (fun _ _ => eq_refl) (fun _ _ _ _ => eq_refl) fuel l v) as (l' & E & M).
+    { intros x v' Hx. apply IH.
+      pose proof (height_inter_in (N.of_nat i) n (convp dc) (map conv_re l) (conv_re x) (in_map conv_re _ _ Hx)). lia. }
+    rewrite E. cbn [bind]. exists l'. split; [reflexivity|]. rewrite M. reflexivity.
+Qed.
+Lemma link_flatten_union_fuel : forall fuel r v, height (conv_re r) <= fuel ->
+  exists l, M_fn_flatten_union fuel r v = Some (v ++ l, tt) /\ map conv_re l = flatten_union (conv_re r).
+Proof.
+  unfold M_fn_flatten_union.
+  induction fuel as [|fuel IH]; intros r v Hh.
+  - destruct r as [k i n s sp dc]. cbn [conv_re height] in Hh. destruct (conv_base k); lia.
+  - destruct r as [k i n s sp dc]. cbn [fn_flatten_union RE_expr].
+    destruct k as [| |c|a b|a lr|a|l|l]; try (eexists; split; [reflexivity|reflexivity]).
+    cbn [conv_re conv_base] in Hh. fold conv_re in Hh.
+    destruct (flatten_loop_ok (fn_flatten_union fuel) flatten_union fn_flatten_union_loop1
+                (fun _ _ => eq_refl) (fun _ _ _ _ => eq_refl) fuel l v) as (l' & E & M).
+    { intros x v' Hx. apply IH.
+      pose proof (height_union_in (N.of_nat i) n (convp dc) (map conv_re l) (conv_re x) (in_map conv_re _ _ Hx)). lia. }
+    rewrite E. cbn [bind]. exists l'. split; [reflexivity|]. rewrite M. reflexivity.
+Qed.
